@@ -50,7 +50,7 @@ def body_case(draw):
             if draw(st.booleans()):
                 p['ctype'] = draw(st.sampled_from(['text/plain', 'application/octet-stream; x=y']))
         parts.append(p)
-    preamble = draw(st.sampled_from([b'', b'', b'\r\n']))
+    preamble = draw(st.sampled_from([b'', b'', b'\r\n', b'\r\n\r\n', b'\r\n\r\n\r\n', b'\r\r\n', b'\r\n-\r\n', b'\r\npreamble text\r\n', b'\r\n\r\n--\r\n']))       # (the parser only accepts bodies that start with the boundary or with CR)
     epilogue = draw(st.one_of(st.sampled_from([b'', b'\r\n', b'\r\nepilogue text', b'text', b'\r\n\r\n', b'--', b'\r', b'\n', b'-']),
                               st.builds(lambda d: b'\r\n' + d, data)))
     return {'boundary': boundary, 'parts': parts, 'preamble': preamble, 'epilogue': epilogue}
@@ -270,6 +270,12 @@ def run(ctx):
                          {'name': 'z', 'value': b'last'}]}
         ctx.guarded(check_case, big)
         ctx.count('large_header_block_body')
+        # ... and a part whose data is much longer than any delimiter window (6 KiB without a delimiter look-alike, then look-alikes), cut everywhere
+        bigdata = {'boundary': 'XbnD', 'preamble': b'', 'epilogue': b'\r\n',
+                   'parts': [{'name': 'f', 'filename': 'x.bin', 'value': bytes((i * 7 + 3) % 251 for i in range(6000)).replace(b'\r\n--XbnD', b'_') + b'\r\n--Xbn' + b'q' * 700},
+                             {'name': 'a', 'value': b'after'}, {'name': 'b', 'value': b''}]}
+        ctx.guarded(check_case, bigdata)
+        ctx.count('large_data_body')
     n = 220 if ctx.tier == 'quick' else 400
     ctx.hyp(body_case(), check_case, n)
     if ctx.tier == 'thorough' and ctx.shard < 4:
